@@ -6,6 +6,10 @@
         &&& forall|k: ConnectionId, c: BusListenerCookie| #![trigger self.conns@[k], self.bus_listeners@[c]]
                 self.conns@.contains_key(k) && self.bus_listeners@.contains_key(c)
                     && self.bus_listeners@[c].conn_id.id() == k.id() ==> self.conns@[k].bus_listeners@.contains(c)
+        // every listener's cached flags say what they are meant to say about its filter set (BusListener::flags_ok, defined and
+        // established in the leaf unit; the precondition of BusListener::add_filter)
+        &&& forall|c: BusListenerCookie| #![trigger self.bus_listeners@[c]] self.bus_listeners@.contains_key(c) ==>
+                self.bus_listeners@[c].flags_ok()
     }
 
     spec fn bl_same_rest(&self, o: &Self) -> bool {
